@@ -348,9 +348,20 @@ class HistogramBase(abc.ABC):
                     for array in (self.frequencies, self.errors2):
                         if np.any(array % 1.0):
                             raise ValueError("Data contain non-integer values.")
-            for array in (self.frequencies, self.errors2):
-                if np.any((array > type_info.max) | (array < type_info.min)):
-                    raise ValueError("Data contain values outside the specified range.")
+            if value.kind in "iu":
+                # max + 1 is a power of two: exact as a float (max itself rounds up to it)
+                too_high = int(type_info.max) + 1
+                for array in (self.frequencies, self.errors2):
+                    if np.any((array >= too_high) | (array < type_info.min)):
+                        raise ValueError(
+                            "Data contain values outside the specified range."
+                        )
+            else:
+                for array in (self.frequencies, self.errors2):
+                    if np.any((array > type_info.max) | (array < type_info.min)):
+                        raise ValueError(
+                            "Data contain values outside the specified range."
+                        )
 
         self._dtype = value
         self._frequencies = self._frequencies.astype(value)
